@@ -188,7 +188,8 @@ class MathX(object):
     exp = _f("exp", math.exp)
     log = _f("log", math.log)
     log10 = _f("log10", math.log10)
-    floor = _f("floor", math.floor)
+    floor = _f("floor", math.floor)              # "floor" is interpreted exactly by the solver (to_int)
+    trunc = lambda self, x: S.sym_int(x) if S.is_sym(x) else math.trunc(x)
     sin = _f("sin", math.sin)
     cos = _f("cos", math.cos)
     tan = _f("tan", math.tan)
@@ -279,11 +280,12 @@ def bind_stubs(mod):
     # LERP stays the real generated code; only the names it resolves are stubbed
     mod.__dict__["interp1d"] = S._Interp1d
     mod.__dict__["float"] = S.sym_float
+    mod.__dict__["int"] = S.sym_int
     return mx
 
 
 STUB_NAMES = ["<generated module>.max", "<generated module>.min", "<generated module>.sum", "<generated module>.math",
-              "<generated module>.np", "<generated module>.random", "<generated module>.interp1d", "<generated module>.float"]
+              "<generated module>.np", "<generated module>.random", "<generated module>.interp1d", "<generated module>.float", "<generated module>.int"]
 
 
 def find_keys(model, probes, t):
